@@ -31,8 +31,16 @@ func verifChain(vx *Vaxis, W, H, depth int, literal bool) (win Window, ox, oy, x
 	x1, y1 = W, H
 	lim := zzverif.Param("lim")
 	for d := 0; d < depth; d++ {
-		col, row := verifInt("col", lim), verifInt("row", lim)
-		cols, rows := verifInt("cols", lim), verifInt("rows", lim)
+		var col, row, cols, rows int
+		if d == 0 && depth > 1 && zzverif.Param("parents") != 0 {
+			// depth >= 2 quick variant: the outer child is one of a few concrete rectangles
+			// (not covering the screen, partly outside it, negative offset), the inner free
+			g := [][4]int{{2, 1, 2, 2}, {1, 0, 2, 3}, {-1, -1, 3, 3}}[zzverif.Choose("parent", 3)]
+			col, row, cols, rows = g[0], g[1], g[2], g[3]
+		} else {
+			col, row = verifInt("col", lim), verifInt("row", lim)
+			cols, rows = verifInt("cols", lim), verifInt("rows", lim)
+		}
 		zzverif.Assume(col > -lim && col < lim && row > -lim && row < lim)
 		if lim < 1<<20 {
 			// small-domain variant: sizes bounded as well (keeps 64-bit adders out of the queries)
